@@ -130,8 +130,6 @@ def make_resync(framing, kind, G, fcbyte=None, per_read=1, vkind="fc6"):
             garbage = g
         else:
             raise ValueError(kind)
-        if kind not in ("foreign", "badcheck"):
-            known("KF-ascii-deaf-after-bad-frame", framing == "ascii" and _ascii_stuck(garbage))
         gl = len(garbage)
         stream = garbage
         for _ in range(K):
@@ -332,11 +330,8 @@ def obligations(tier):
                        bounds="the real synchronous serial-style handler, %s framing: garbage kind '%s' (%d symbolic bytes) in one read, then %d valid FC6 requests one per read (unit, address 0..3, value symbolic): at least the last two are answered" % (framing, kind, G, K)))
     for framing, kind, G, fc, per, vk in plan:
         name = "%s.%s.%s.g%d%s%s" % ("resync" if per == 1 else "twoperread", framing, kind, G, "" if fc is None else ".fc%d" % fc, "" if vk == "fc6" else ".valid-" + vk)
-        fnd = ("KF-ascii-deaf-after-bad-frame",) if framing == "ascii" and kind in ("badcheck", "raw") else ()
+        fnd = ()
         wf = None
-        if framing == "ascii" and kind == "badcheck":
-            wf = "KF-ascii-deaf-after-bad-frame"
-            fnd = ()
         if per == 2 and framing == "rtu":
             wf = "KF-rtu-split-or-multiple-frames"
         if per == 2 and framing == "binary":
